@@ -168,6 +168,19 @@ REGISTRY["C11"] = {
                     "real view reads that string is what the engine observes on generated classes"],
 }
 
+REGISTRY["C12"] = {
+    "engine": "engine_conv",
+    "theorems": [(A + "Conv", "Api.Conv.C12_registered_square"), (A + "Conv", "Api.Conv.C12_registration_order"), (A + "Conv", "Api.Conv.C12_dynamic_square"),
+                 (A + "Conv", "Api.Conv.C12_identity"), (A + "Conv", "Api.Conv.C12_locality"), (A + "Conv", "Api.Conv.C12_through_optional"),
+                 (A + "Conv", "Api.Conv.C12_through_list"), (A + "Conv", "Api.Conv.C12_rejects")],
+    "model_is_spec": True,
+    "partial": "deserialization side of the resolution (dynamic before registered, identity, registration order, locality, containers) is stated on a "
+               "model whose data, values and converters are opaque; the serialization squares, inherited serializers, schemas, generic and lazy "
+               "conversions are decided by the engine on the real code only",
+    "assumptions": ["converters, source-type deserialization and value assembly are parameters of the model; that the real visitor resolves conversions in the "
+                    "modelled order is what the engine observes"],
+}
+
 LEVEL_NOTE = ("Trusted: Lean 4.33 kernel; axioms propext / Classical.choice / Quot.sound only (audited by #print axioms on every run, no sorry / "
               "native_decide / own axioms); the hand-written model, tied to /repo by the differential correspondence of this check (same cases to the "
               "real code and to the compiled Lean driver); tools/extract.py for the regenerated tables; CPython / typing / dataclasses. "
@@ -214,11 +227,14 @@ TEXT["C09"] = ("Kernel-checked theorem on an abstract cache machine: over every 
 TEXT["C11"] = ("Kernel-checked theorem: every modelled view (deserialize, serialize, properties / required of both schemas, error locations, GraphQL input and "
                "output fields) lists exactly aliaser(class_aliaser(alias or name)) for an arbitrary aliaser function, class aliaser and field list, hence any two "
                "views agree; tied by comparing up to eleven views of the real code with the specification on generated classes.")
+TEXT["C12"] = ("Kernel-checked statements of the commuting squares on a model of conversion resolution (deserialize(C, d) = f(deserialize(S, d)) with the same "
+               "rejections, registration order, dynamic conversions consumed at their target, identity bypass, locality at object fields, reach through "
+               "containers), for every world of opaque converters; tied by running the squares on the real code with fresh converted classes.")
 for k, v in TEXT.items():
     REGISTRY[k]["level_text"] = v
     REGISTRY[k]["level_note"] = LEVEL_NOTE
 
 # properties registered in MANIFEST.json (a property is claimed once its check is green on the unchanged tree)
-CLAIMED = ["C01", "C02", "C03", "C04", "C05", "C06", "C07", "C08", "C09", "C10", "C11", "C13", "C14", "C15", "C16", "C17", "C18"]
+CLAIMED = ["C01", "C02", "C03", "C04", "C05", "C06", "C07", "C08", "C09", "C10", "C11", "C12", "C13", "C14", "C15", "C16", "C17", "C18"]
 PENDING_REASON = "check under construction in this session (model and theorems exist, engine being registered); not yet claimed"
 NOT_CLAIMED = {f"C{i:02d}": PENDING_REASON for i in range(1, 21) if f"C{i:02d}" not in CLAIMED}
